@@ -110,6 +110,15 @@ def sym_table(ctx, name, nmin=1):
     return t
 
 
+def fixed_table(ctx, name, nrows):
+    """a source table with exactly nrows rows (concrete), symbolic contents"""
+    t = STable(name)
+    t.n = z3.IntVal(nrows)
+    j = smt.fresh_int('r')
+    ctx.facts.append(z3.ForAll([j], smt.seq_len(z3.Select(t.rows, j)) >= 0))
+    return t
+
+
 def sym_cell(name):
     return SCell(z3.Const(name, V))
 
